@@ -68,6 +68,29 @@ CLAIMS["C08"] = dict(
     design_ref="§5 C08", technique="Lean 4 theorems over a crash model of file operations + trace correspondence + crash-point enumeration (fault injection) on the real save paths",
     note=COMMON_NOTE + "Assumed: os.replace atomic within a directory; process crash only (no fsync, OS/power failure outside the claim); uuid4 names do not collide. The crash enumeration covers file-operation boundaries and write prefixes, not every Python line.")
 
+CONC_NOTE = COMMON_NOTE + ("Concurrency: the theorems are about the one-lock machine SC/Conc.lean (operations = sequences of actions executed inside one lock, any number of threads, any schedule). "
+    "The tie to the code: (i) the regenerated API table says every public mutator's outermost context is the load-and-save/overwrite bracket (decide); (ii) on every run the lock events and I/O events of every mutator, under every injected fault, are compared with the model's bracket (first event acquires the root/buffer lock, last releases it, all reads/writes/merges in between); "
+    "(iii) small multi-threaded programs are executed on the real classes under a deterministic scheduler (event level: preemption-bounded systematic; line level: seeded random) and every outcome must be a serial outcome. Interleavings inside one event-level step are explored by the line-level sampling only. ")
+
+CLAIMS.update({
+    "C09": dict(
+        text="Theorem C09_linearizable: for every number of threads, programs and EVERY schedule running them to completion, the final shared state equals the serial execution in lock-entry order, which contains every thread's operations in program order - proved by an invariant over schedules (unbounded). C09_all_mutators_bracketed (decide over the regenerated table). Schedules on the real code: all mutators incl. clear/reset/pop/reverse, same object / second object / child handles.",
+        design_ref="§5 C09", technique="Lean 4 invariant proof over all schedules of a lock machine + AST-table obligation + event-trace tie + systematic schedule exploration of the real code against serial outcomes",
+        note=CONC_NOTE),
+    "C10": dict(
+        text="Theorems C10_no_lock_leaked (the bracket of _LoadAndSave/_BufferedLoadAndSave as written holds no lock after any failure point, all 16 cases), C10_bracket_lock_order, C10_no_deadlock (lock-hierarchy theorem for any number of threads and locks), C10_old_bracket_leaks (the model exhibits the pre-fix defect). Real code: fault injection of every operation x 6 fault kinds x root/child x unbuffered/buffered/capacity 0 on six families with instrumented locks (no lock owned afterwards; a second object completes a write); filename rebinding; deadlock detection under the scheduler incl. contexts entered/left by a concurrent thread.",
+        design_ref="§5 C10", technique="Lean 4 theorems (finite bracket table by decide, general lock-hierarchy theorem) + fault injection with instrumented locks + scheduler deadlock detection",
+        note=CONC_NOTE),
+    "C13": dict(
+        text="Theorems C13_buffer_serialised (the linearizability theorem instantiated with the buffer-machine state: buffered mutators hold the class-wide buffer lock around load-modify-save incl. forced flushes) and C13_accounting_survives_interleaving (every concurrent execution of buffer-machine steps keeps the C15 size invariant). Real code: threads inside buffer_backend(cap), cap in {default,0,1,2,30,60}, 1-2 files, same/different objects; outcome must be serial, size 0 after exit, no buffer-related error.",
+        design_ref="§5 C13", technique="Lean 4 linearizability theorem instantiated on the buffer machine + schedule exploration of the real buffered classes",
+        note=CONC_NOTE),
+    "C14": dict(
+        text="The full property is FALSE of the design (reads take no lock) and is recorded as known findings with root-cause signatures; proved: C14_partial_writers_only (= C09) and C14_counterexample_suspend, a kernel-checked schedule of the reader/writer machine (shared memory + suspend counter) that loses the writer's update. The check explores reader/writer programs on the real code; every violation whose signature (same-object vs separate objects, mechanism from the event trace, error class, operation) is not a listed finding is reported.",
+        design_ref="§5 C14", technique="Lean 4 partial theorem + kernel-checked counter-example schedule + schedule exploration with signature-keyed known findings",
+        note=CONC_NOTE + "Known findings: reads on an object another thread is using (lost update via suspend counter or via merge, impossible values, IndexError/KeyError in the unlocked merge) and the multi-load Sequence mix-ins count/index/__contains__ against a concurrent writer on another object."),
+})
+
 NOT_YET = {}
 
 NOTES = ("All checks share one pipeline (./check): regenerate lean/SC/Generated/Tables.lean from /repo, lake build the model driver and the property's "
